@@ -245,9 +245,23 @@ func setupFile(v6 bool, args ...string) (handler.Handler6, handler.Handler4, err
 		// very simple watcher on the lease file to trigger a refresh on any event
 		// on the file
 		go func() {
-			for event := range watcher.Events {
-				if filepath.Clean(event.Name) != filepath.Clean(filename) {
-					continue
+			for {
+				select {
+				case event, ok := <-watcher.Events:
+					if !ok {
+						return
+					}
+					if filepath.Clean(event.Name) != filepath.Clean(filename) {
+						continue
+					}
+				case werr, ok := <-watcher.Errors:
+					if !ok {
+						return
+					}
+					// the watcher delivers no further event until its error has
+					// been read; an error (e.g. an overflow of the event queue)
+					// also means that events were lost, so reload to be safe
+					log.Warningf("watching %s: %s", filename, werr)
 				}
 				err := loadFromFile(v6, filename)
 				if err != nil {
